@@ -51,9 +51,12 @@ structure Framed (T : List Path) (fs0 fs : FS) : Prop where
   no_capture : ∀ i, OutI T fs0 i → ∀ p, fs.lookup p = some i → fs0.lookup p = some i
   inode_out : ∀ i, OutI T fs0 i → (fs.inode i).map eraseM = (fs0.inode i).map eraseM
   inode_quiet : ∀ i, QuietI T fs0 i → fs.inode i = fs0.inode i
+  /-- nothing appears out of nowhere: a name that did not exist at the start and is neither covered nor on
+      the way to a named path does not exist now -/
+  absent_keep : ∀ p, fs0.lookup p = none → ¬ CovAnc T p → fs.lookup p = none
 
 theorem Framed.refl (T : List Path) (fs : FS) : Framed T fs fs :=
-  ⟨Nat.le_refl _, fun _ _ h _ => h, fun _ _ _ h => h, fun _ _ => rfl, fun _ _ => rfl⟩
+  ⟨Nat.le_refl _, fun _ _ h _ => h, fun _ _ _ h => h, fun _ _ => rfl, fun _ _ => rfl, fun _ h _ => h⟩
 
 /-- an inode reached through a covered name, or through a name that did not exist at the start, is not
     one of the inodes the frame speaks about -/
@@ -73,7 +76,7 @@ theorem next_setInode (fs : FS) (i : Ino) (n : Inode) : (fs.setInode i n).next =
 /-- changing an inode that is not one of the framed ones -/
 theorem Framed.modOther {T : List Path} {fs0 fs : FS} (h : Framed T fs0 fs) (j : Ino) (f : Inode → Inode)
     (hj : ¬ OutI T fs0 j) : Framed T fs0 (fs.modInode j f) := by
-  refine ⟨by rw [next_modInode]; exact h.next_le, ?_, ?_, ?_, ?_⟩
+  refine ⟨by rw [next_modInode]; exact h.next_le, ?_, ?_, ?_, ?_, ?_⟩
   · intro p i hp hc; rw [lookup_modInode]; exact h.names_keep p i hp hc
   · intro i hi p hp; rw [lookup_modInode] at hp; exact h.no_capture i hi p hp
   · intro i hi
@@ -82,10 +85,11 @@ theorem Framed.modOther {T : List Path} {fs0 fs : FS} (h : Framed T fs0 fs) (j :
   · intro i hi
     have : i ≠ j := fun e => hj (e ▸ hi.1)
     rw [inode_modInode_ne fs j i f this]; exact h.inode_quiet i hi
+  · intro p hp hc; rw [lookup_modInode]; exact h.absent_keep p hp hc
 
 theorem Framed.setOther {T : List Path} {fs0 fs : FS} (h : Framed T fs0 fs) (j : Ino) (n : Inode)
     (hj : ¬ OutI T fs0 j) : Framed T fs0 (fs.setInode j n) := by
-  refine ⟨h.next_le, h.names_keep, h.no_capture, ?_, ?_⟩
+  refine ⟨h.next_le, h.names_keep, h.no_capture, ?_, ?_, h.absent_keep⟩
   · intro i hi
     have : i ≠ j := fun e => hj (e ▸ hi)
     rw [inode_setInode_ne fs j i n this]; exact h.inode_out i hi
@@ -101,7 +105,8 @@ theorem Framed.touch {T : List Path} {fs0 fs : FS} (h : Framed T fs0 fs) (q : Pa
   · rename_i j hj
     by_cases ho : OutI T fs0 j
     · have h0 := h.no_capture j ho _ hj
-      refine ⟨by rw [next_modInode]; exact h.next_le, ?_, ?_, ?_, ?_⟩
+      refine ⟨by rw [next_modInode]; exact h.next_le, ?_, ?_, ?_, ?_,
+        fun p hp hc => by rw [lookup_modInode]; exact h.absent_keep p hp hc⟩
       · intro p i hp hc; rw [lookup_modInode]; exact h.names_keep p i hp hc
       · intro i hi p hp; rw [lookup_modInode] at hp; exact h.no_capture i hi p hp
       · intro i hi
@@ -124,15 +129,21 @@ theorem Framed.touch {T : List Path} {fs0 fs : FS} (h : Framed T fs0 fs) (q : Pa
   · exact h
 
 theorem Framed.create {T : List Path} {fs0 fs : FS} (h : Framed T fs0 fs) (h0 : NextFresh fs0) (q : Path) (n : Inode)
-    (hn : fs.lookup q = none) (hq : CovAnc T q.dropLast) : Framed T fs0 (fs.create q n) := by
+    (hn : fs.lookup q = none) (hq : CovAnc T q) : Framed T fs0 (fs.create q n) := by
   unfold FS.create
   simp only
-  refine Framed.touch ?_ q hq
+  refine Framed.touch ?_ q hq.dropLast
   have hlt : ∀ i, OutI T fs0 i → i ≠ fs.next := by
     intro i hi
     obtain ⟨⟨p, hp⟩, _⟩ := hi
     exact Nat.ne_of_lt (Nat.lt_of_lt_of_le (h0 p i hp) h.next_le)
-  refine ⟨Nat.le_succ_of_le h.next_le, ?_, ?_, ?_, ?_⟩
+  refine ⟨Nat.le_succ_of_le h.next_le, ?_, ?_, ?_, ?_, ?_⟩
+  rotate_right
+  · intro p hp hc
+    show ({ fs with names := fs.names ++ [(q, fs.next)] } : FS).lookup p = none
+    rw [lookup_append_new fs q fs.next hn p]
+    have : p ≠ q := by intro e; subst e; exact hc hq
+    simp [this, h.absent_keep p hp hc]
   · intro p i hp hc
     show ({ fs with names := fs.names ++ [(q, fs.next)] } : FS).lookup p = some i
     rw [lookup_append_new fs q fs.next hn p]
@@ -156,11 +167,16 @@ theorem Framed.create {T : List Path} {fs0 fs : FS} (h : Framed T fs0 fs) (h0 : 
 
 theorem Framed.addName {T : List Path} {fs0 fs : FS} (h : Framed T fs0 fs) (q qo : Path) (j : Ino)
     (hn : fs.lookup q = none) (ho : fs.lookup qo = some j) (hc : Cov T qo ∨ fs0.lookup qo = none)
-    (hq : CovAnc T q.dropLast) : Framed T fs0 (fs.addName q j) := by
+    (hq : CovAnc T q) : Framed T fs0 (fs.addName q j) := by
   unfold FS.addName
-  refine Framed.touch ?_ q hq
+  refine Framed.touch ?_ q hq.dropLast
   have hj := h.not_out ho hc
-  refine ⟨h.next_le, ?_, ?_, h.inode_out, h.inode_quiet⟩
+  refine ⟨h.next_le, ?_, ?_, h.inode_out, h.inode_quiet, ?_⟩
+  rotate_right
+  · intro p hp hcp
+    rw [lookup_append_new fs q j hn p]
+    have : p ≠ q := by intro e; subst e; exact hcp hq
+    simp [this, h.absent_keep p hp hcp]
   · intro p i hp hcp
     rw [lookup_append_new fs q j hn p]
     have hk := h.names_keep p i hp hcp
@@ -175,7 +191,13 @@ theorem Framed.addName {T : List Path} {fs0 fs : FS} (h : Framed T fs0 fs) (q qo
 theorem Framed.filter {T : List Path} {fs0 fs : FS} (h : Framed T fs0 fs) (keep : Path → Bool)
     (hk : ∀ p, ¬ Cov T p → keep p = true) :
     Framed T fs0 ({ fs with names := fs.names.filter (fun e => keep e.1) } : FS) := by
-  refine ⟨h.next_le, ?_, ?_, h.inode_out, h.inode_quiet⟩
+  refine ⟨h.next_le, ?_, ?_, h.inode_out, h.inode_quiet, ?_⟩
+  rotate_right
+  · intro p hp hc
+    rw [lookup_filterNames]
+    split
+    · exact h.absent_keep p hp hc
+    · rfl
   · intro p i hp hc
     rw [lookup_filterNames, hk p hc]
     exact h.names_keep p i hp hc
@@ -203,7 +225,8 @@ theorem Framed.all_covered {T : List Path} {fs0 fs : FS} (hc : Cov T []) (hn : f
     obtain ⟨⟨p, hp⟩, hall⟩ := hi
     exact hall p hp (hc.of_prefix (List.nil_prefix))
   exact ⟨hn, fun p i _ hcp => absurd (hc.of_prefix List.nil_prefix) hcp, fun i hi => absurd hi (hno i),
-    fun i hi => absurd hi (hno i), fun i hi => absurd hi.1 (hno i)⟩
+    fun i hi => absurd hi (hno i), fun i hi => absurd hi.1 (hno i),
+    fun p _ hcp => absurd (Or.inl (hc.of_prefix List.nil_prefix)) hcp⟩
 
 theorem cov_append {T1 T2 : List Path} {p : Path} : Cov (T1 ++ T2) p ↔ Cov T1 p ∨ Cov T2 p := by
   constructor
@@ -235,7 +258,14 @@ theorem Framed.comp {T1 T2 : List Path} {a b c : FS} (h1 : Framed T1 a b) (h2 : 
     refine ⟨ho1, ⟨p0, h1.names_keep p0 i hp0 (ho1.2 p0 hp0)⟩, ?_⟩
     intro p hp hc
     exact hi.2 p (h1.no_capture i ho1 p hp) (cov_append.mpr (Or.inr hc))
-  refine ⟨Nat.le_trans h1.next_le h2.next_le, ?_, ?_, ?_, ?_⟩
+  refine ⟨Nat.le_trans h1.next_le h2.next_le, ?_, ?_, ?_, ?_, ?_⟩
+  rotate_right
+  · intro p hp hc
+    have hc1 : ¬ CovAnc T1 p := fun h => hc (h.elim (fun h => Or.inl (cov_append.mpr (Or.inl h)))
+      (fun h => Or.inr (anc_append.mpr (Or.inl h))))
+    have hc2 : ¬ CovAnc T2 p := fun h => hc (h.elim (fun h => Or.inl (cov_append.mpr (Or.inr h)))
+      (fun h => Or.inr (anc_append.mpr (Or.inr h))))
+    exact h2.absent_keep p (h1.absent_keep p hp hc1) hc2
   · intro p i hp hc
     have hc1 : ¬ Cov T1 p := fun h => hc (cov_append.mpr (Or.inl h))
     have hc2 : ¬ Cov T2 p := fun h => hc (cov_append.mpr (Or.inr h))
